@@ -114,7 +114,17 @@ def serial_case(h, at, exc="Interrupted", warm=False):
             return dict(case, kind="callback-count", detail="callback consulted %d times for %d sub-cubes" % (cb.calls, k))
         if harness.freeze(out[1]) != expected(h):
             return dict(case, kind="result-differs", detail="result with a never-raising callback differs from the plain result")
-    # same objects again, callback disarmed
+    # same objects again: after an interrupt, first interrupted by another class of exception at the last invocation (must stop with that object) ...
+    if out[0] == "exc":
+        cb2 = Callback((k - 1,), "IRuntimeError" if exc != "IRuntimeError" else "Interrupted")
+        cube.check_interrupt = cb2
+        try:
+            cube.calculate(funcs)
+            return dict(case, kind="reuse-second-interrupt", detail="the second evaluation was interrupted at invocation %d (%d consulted) but calculate returned" % (k - 1, cb2.calls))
+        except Exception as e:  # noqa
+            if not any(e is r for r in cb2.raised):
+                return dict(case, kind="reuse-second-interrupt", detail="the second evaluation was interrupted with %r but calculate raised %r" % (cb2.raised, e))
+    # ... then with the callback disarmed
     cube.check_interrupt = None
     try:
         again = harness.freeze(cube.calculate(funcs))
@@ -136,17 +146,30 @@ def pooled_body(h, w, at, exc="Interrupted"):
             out = ("exc", e)
         cb.pending_at_return = sched.background_pending()
         cube.check_interrupt = None
-        # follow-up on the SAME objects: first pooled again (default schedule under a scheduler of its own, so that it does not
-        # add branching to the exploration), then serial
+        # follow-up on the SAME objects (default schedule under a scheduler of its own, so that it does not add branching to the
+        # exploration): after an interrupted run, first a pooled evaluation interrupted by an exception of ANOTHER class at its first
+        # invocation - it must stop with that very object, not with anything left over from the earlier run - then pooled undisturbed, then serial
         outer = sched.CURRENT
+        second = None
         try:
             sched.CURRENT = sched.Scheduler()
+            if out[0] == "exc":
+                cb2 = Callback((0,), "IRuntimeError" if exc != "IRuntimeError" else "Interrupted")
+                cube.check_interrupt = cb2
+                try:
+                    cube.calculate(funcs)
+                    second = "the follow-up evaluation was interrupted at its first invocation (%d consulted) but calculate returned" % cb2.calls
+                except Exception as e:  # noqa
+                    if not any(e is r for r in cb2.raised):
+                        second = "the follow-up evaluation was interrupted with %r but calculate raised %r" % (cb2.raised, e)
+                cube.check_interrupt = None
             try:
                 again_pooled = ("ok", harness.freeze(cube.calculate(funcs)))
             except Exception as e:  # noqa
                 again_pooled = ("exc", e)
         finally:
             sched.CURRENT = outer
+        cb.second = second
         cube.parallel = False
         try:
             again = ("ok", harness.freeze(cube.calculate(funcs)))
@@ -185,6 +208,8 @@ def pooled_check(h, at):
         # interrupted task's chunk (list(map(f, chunk)) stops at the exception), so only "never more than once" is claimed
         if (not live and cb.calls != k) or cb.calls > k:
             return {"kind": "callback-count", "detail": "callback consulted %d times for %d sub-cubes" % (cb.calls, k)}
+        if getattr(cb, "second", None):
+            return {"kind": "reuse-second-interrupt", "detail": cb.second}
         if again[0] != "ok":
             return {"kind": "reuse-raised", "detail": "follow-up calculate raised %r" % (again[1],)}
         if again[1] != exp:
@@ -270,6 +295,13 @@ def main(tier, all_violations=False, t0=None):
         for exc in EXC_ALT:
             for i in range(k):
                 tasks.append((h, w, "line", bound if exc == "IRuntimeError" else 0, (i,), exc))
+    # ... and several invocations raising an exception of another class in one pooled evaluation (what the library keeps about one interrupt
+    # must not survive into the next evaluation)
+    for h, w in (("c3", 2), ("x3", 2), ("c8", 2), ("x8", 2)):
+        k = harness.subcubes(h)
+        for exc in EXC_ALT:
+            for at in ((0, 1), (0, k - 1), tuple(range(k))):
+                tasks.append((h, w, "line", 1 if (exc == "IStopIteration" and k <= 3) else 0, at, exc))
     per = {}
     if viol is None:
         pool = multiprocessing.get_context("fork").Pool(min(core.NPROC, len(tasks)))
